@@ -220,6 +220,19 @@ def curvesOf (c : LasContent) : List HLine :=
   | some (.hdr _ lines) => lines
   | _ => []
 
+/-- the NULL value the well section declares (first `NULL` line, when its value is an int or a float), else -999.25 -/
+def declaredNull (c : LasContent) : Int × Int :=
+  match c.sects.find? (fun s => s.typ == 'W') with
+  | some (.hdr _ lines) =>
+    match lines.find? (fun h => h.mnem == "NULL".toList) with
+    | some h =>
+      match h.value with
+      | .int i => (i, 0)
+      | .float m e => (m, e)
+      | _ => defaultNull
+    | none => defaultNull
+  | _ => defaultNull
+
 def expectCell : DCell → Cell
   | .num m e => .num m e
   | .bad _ => .null
@@ -227,7 +240,7 @@ def expectCell : DCell → Cell
 /-- what the reader must return for the content -/
 def toFile (c : LasContent) : LasFile :=
   ⟨vSection c :: c.sects.map expectSect,
-   some ⟨(curvesOf c).map (fun h => (.text h.mnem, .text h.unit)), c.frames.map (·.map expectCell)⟩⟩
+   some ⟨(curvesOf c).map (fun h => (.text h.mnem, .text h.unit)), declaredNull c, c.frames.map (·.map expectCell)⟩⟩
 
 def print (c : LasContent) (l : LasLayout) : Str :=
   printSect (.hdr 'V' c.v) l.v ++ printSects c.sects l.sects ++ printHead 'A' l.a ++
@@ -278,7 +291,6 @@ def wfContent (c : LasContent) : Bool :=
                                (h.mnem == "TIME".toList && h.unit == "HHMMSS".toList))) &&
   c.frames.all (fun r => r.length == (curvesOf c).length && r.all wfCell) &&
   (c.frames.isEmpty || !(curvesOf c).isEmpty) &&
-  !hasDupX (c.frames.map (fun r => cellKey (expectCell (r.headD (.bad []))))) &&
-  (!wrapOf c || (curvesOf c).length ≥ 2)
+  !hasDupX (c.frames.map (fun r => cellKey (declaredNull c) (expectCell (r.headD (.bad [])))))
 
 end TD.C09
